@@ -16,6 +16,7 @@ func init() { register("C14", c14) }
 func c14(c *Ctx) {
 	defer c14superiors(c)
 	defer c14inferiors(c)
+	defer c14remoteDeleteClearsSubscription(c)
 	P, R := c.P, c.R
 	R.Explain("R14.1", "pattern injection (T-SOURCE): every operand of regexp.Compile/MustCompile in the server packages is built only from constants and regexp.QuoteMeta results (string concatenation, fmt.Sprintf, strings.ReplaceAll of such parts); a raw configuration or client string in a pattern can make MustCompile panic or change the match.")
 	R.Explain("R14.2", "protection guards (T-DOM): handleCreate/handleDelete refuse INBOX (case-insensitively) before calling the state; the recovery mailbox guards of R20.3.")
@@ -417,4 +418,46 @@ func c14inferiors(c *Ctx) {
 func isBoolType(t types.Type) bool {
 	b, ok := t.Underlying().(*types.Basic)
 	return ok && b.Kind() == types.Bool
+}
+
+// c14remoteDeleteClearsSubscription (R14.8): a mailbox deleted by the connector leaves no phantom subscription behind.
+func c14remoteDeleteClearsSubscription(c *Ctx) {
+	P, R := c.P, c.R
+	R.Explain("R14.8", "a name the connector deleted is gone from LSUB as well: in the transaction of user.applyMailboxDeleted every nil-error return that follows tx.DeleteMailboxWithRemoteID passes tx.RemoveDeletedSubscriptionWithName for that mailbox, unconditionally - the deleted_subscriptions table is keyed by name, so a row left by an earlier mailbox of the same name would otherwise keep being listed as \\Noselect although the name neither exists nor is subscribed.")
+	f := c.fn("R14.8", "internal/backend.(*user).applyMailboxDeleted")
+	if f == nil {
+		return
+	}
+	n := 0
+	for _, g := range engine.WithClosures(f) {
+		var dels []ssa.Instruction
+		cut := map[ssa.Instruction]bool{}
+		for _, cs := range engine.Calls(g) {
+			cc := cs.Common()
+			if !cc.IsInvoke() || cs.Instr.Parent() != g {
+				continue
+			}
+			switch cc.Method.Name() {
+			case "DeleteMailboxWithRemoteID":
+				dels = append(dels, cs.Instr)
+			case "RemoveDeletedSubscriptionWithName":
+				cut[cs.Instr] = true
+			}
+		}
+		for _, d := range dels {
+			n++
+			bad := ""
+			for _, ret := range engine.Returns(g) {
+				lr := engine.LastResult(ret)
+				if lr == nil || !engine.IsNilConst(lr) {
+					continue
+				}
+				if engine.ReachesAvoidingFrom(d.Block(), engine.InstrIndex(d)+1, ret, cut, nil) {
+					bad = P.Pos(ret.Pos())
+				}
+			}
+			R.Check(bad == "", "R14.8", c.name(g)+"|deleted subscription cleared", P.Pos(d.Pos()), "every success path clears the deleted subscription of the name", "after tx.DeleteMailboxWithRemoteID a success return ("+bad+") is reachable without tx.RemoveDeletedSubscriptionWithName: a stale deleted-subscription row of that name keeps the deleted mailbox in LSUB")
+		}
+	}
+	R.Min("R14.8", "mailbox deletions in applyMailboxDeleted", n, 1)
 }
